@@ -443,3 +443,61 @@ def rule_params_pairing(ctx, cfg, prog, rule='R-PAIR'):
     ctx.ob(rule, ok, 'pair|params-pairing', loc_str(us[0]),
            'compressed Params::unmarshal recomputes the pairing as %s while setup computes %s (expected pairing := e(g2, g1))' % (ru, rs),
            cfg=cfg, sample=dict(config=cfg, unmarshal=str(ru), setup=str(rs)))
+
+
+# ---------- R-SUBBUF: a pointer into a fixed-size member array handed to a serialiser must leave room for its footprint ----------
+def rule_subbuffer(ctx, cfg, prog, rule='R-SUBBUF'):
+    memo = {}
+    decided = undecided = 0
+    for f in prog.functions.values():
+        if 'body' not in f or not f['l'][0].startswith(('src/', 'include/')):
+            continue
+        for c in pr.calls(f['body']):
+            callee = prog.callee(c, f)
+            if callee is None or 'body' not in callee:
+                continue
+            for i, a in enumerate(c.get('args', [])):
+                if (a.get('t') or {}).get('k') != 'ptr':
+                    continue
+                x = a
+                while isinstance(x, dict) and x.get('k') == 'cast' and x.get('ck') != 'ArrayToPointerDecay':
+                    x = x['e']
+                off = None
+                arr = None
+                if isinstance(x, dict) and x.get('k') == 'un' and x.get('op') == '&' and x['e'].get('k') == 'index':
+                    ix = x['e']
+                    b = ix['base']
+                    if b.get('k') == 'cast' and b.get('ck') == 'ArrayToPointerDecay' and 'cv' in strip(ix['idx']):
+                        arr = b['e']
+                        off = int(strip(ix['idx'])['cv']) * ((ix.get('t') or {}).get('size') or 1)
+                elif isinstance(x, dict) and x.get('k') == 'cast' and x.get('ck') == 'ArrayToPointerDecay':
+                    arr = x['e']
+                    off = 0
+                if arr is None or arr.get('k') != 'member':
+                    continue
+                at = arr.get('t') or {}
+                if at.get('k') != 'array' or 'n' not in at:
+                    continue
+                extent = at['n'] * ((at.get('elem') or {}).get('size') or 1)
+                try:
+                    accs = foot.footprint(prog, memo, callee, i, None)
+                    ends = []
+                    for acc in accs:
+                        if acc.count is not None:
+                            raise foot.Unsupported('run-time loop')
+                        for (s0, e0) in acc.intervals(0):
+                            ends.append(e0)
+                except foot.Unsupported:
+                    undecided += 1
+                    continue
+                if not ends:
+                    continue
+                decided += 1
+                need = off + max(ends)
+                ctx.ob(rule, need <= extent, 'subbuf|%s|%s+%d' % (strip_tmpl(f['qn']), arr.get('name'), off), loc_str(c),
+                       '%s passes &%s[%d] to %s, which accesses %d bytes through it, but the array has only %d bytes: %d bytes beyond the '
+                       'object (%s) are touched' % (f['qn'], arr.get('name'), off, callee['qn'], max(ends), extent, need - extent, loc_str(c)),
+                       cfg=cfg, sample=dict(config=cfg, function=f['qn'][:90], array=arr.get('name'), offset=off, callee_footprint=max(ends), extent=extent))
+    ctx.count('subbuffer_sites_decided[%s]' % cfg, decided)
+    ctx.count('subbuffer_sites_undecided[%s]' % cfg, undecided)
+    return decided
